@@ -6,9 +6,9 @@ VERIF = os.path.dirname(os.path.dirname(os.path.abspath(__file__)))
 PROPS = ['C%02d' % i for i in range(1, 21) if i != 2]
 
 
-def keys_of(tree, t):
+def keys_of(tree, t, props=None):
     out = {}
-    for p in PROPS:
+    for p in (props or PROPS):
         env = dict(os.environ, VERIF_REPO=tree, VERIF_EVIDENCE_DIR=t)
         r = subprocess.run([os.path.join(VERIF, 'check'), p], env=env, stdout=subprocess.PIPE, stderr=subprocess.STDOUT, universal_newlines=True)
         ks = [l.strip().split(' ')[0] for l in r.stdout.split('\n') if l.startswith('  %s/' % p)]
@@ -29,8 +29,14 @@ def main(argv):
         if r.returncode != 0:
             print('PATCH-FAILS', r.stdout[:300])
             return 3
-        res = keys_of(tree, t)
+        res = keys_of(tree, t, argv[3].split(',') if len(argv) > 3 else None)
         alarms = {p: v[1] or v[2] for p, v in res.items() if v[0] != 0}
+        if os.environ.get('FULL'):
+            for p, v in res.items():
+                if v[0] != 0:
+                    env = dict(os.environ, VERIF_REPO=tree, VERIF_EVIDENCE_DIR=t)
+                    r = subprocess.run([os.path.join(VERIF, 'check'), p], env=env, stdout=subprocess.PIPE, stderr=subprocess.STDOUT, universal_newlines=True)
+                    print(r.stdout[-3000:])
         print(json.dumps({'id': argv[2] if len(argv) > 2 else patch, 'alarms': alarms}, indent=1)[:3000])
         return 1 if alarms else 0
     finally:
